@@ -6,20 +6,20 @@ from pathlib import Path
 from . import common as C
 
 
-def run_generator(module, workdir, constants=None, simulate=None, depth=None, seed=None, workers=8, timeout=1800, heap_mb=8000):
+def run_generator(module, workdir, constants=None, simulate=None, depth=None, seed=None, workers=8, timeout=1800, heap_mb=8000, cfg=None, env=None):
     """constants: dict name -> TLA+ text replacing the value in spec/<module>.cfg (`CONSTANT N = v`)."""
     d = Path(workdir)
     d.mkdir(parents=True, exist_ok=True)
     for f in C.SPEC.glob("*.tla"):
         shutil.copy(f, d / f.name)
-    cfg = (C.SPEC / f"{module}.cfg").read_text()
+    cfg = (C.SPEC / f"{cfg or module}.cfg").read_text()
     for k, v in (constants or {}).items():
         cfg, n = re.subn(rf"(\b{k}\s*(=|<-)\s*)\S+", rf"\g<1>{v}", cfg)
         if n == 0:
             raise C.ToolError(f"constant {k} not in {module}.cfg")
     (d / f"{module}_run.cfg").write_text(cfg)
     g = C.tlc(module, f"{module}_run", d, workers=(1 if simulate else workers), timeout=timeout, copy_specs=False,
-              heap_mb=heap_mb, simulate=simulate, depth=depth, seed=seed)
+              heap_mb=heap_mb, simulate=simulate, depth=depth, seed=seed, env=env)
     if g.error or g.invariant_violated:
         raise C.ToolError(f"{module}: {g.error or g.invariant_violated}")
     return g.prints.get("CASE", []), g
@@ -34,3 +34,14 @@ def dedupe(cases, key):
         seen.add(k)
         out.append(c)
     return out
+
+
+def expand(module, workdir, selected, cfg, workers=8, timeout=1800):
+    """second phase of a light enumeration: turn selected records into full CASEs (with prog)."""
+    d = Path(workdir)
+    d.mkdir(parents=True, exist_ok=True)
+    C.write_ndjson(d / "select.ndjson", selected)
+    cases, g = run_generator(module, d, cfg=cfg, env=dict(SELECT=str(d / "select.ndjson")), workers=workers, timeout=timeout)
+    if len(cases) != len(selected):
+        raise C.ToolError(f"{module} expanded {len(cases)} of {len(selected)} selected cases")
+    return cases, g
